@@ -329,7 +329,33 @@ func c04Eval(c *Config, cs C04Case) string {
 			}
 			return fmt.Sprintf("every AVP of the body decodes on its own, the reference framer finds %d AVPs, but the decoder rejects the sequence: %v", len(recs), derr)
 		}
-		return cmpFramed(c, m.AVP, recs, "avp")
+		if s := cmpFramed(c, m.AVP, recs, "avp"); s != "" {
+			return s
+		}
+		// the exported AVP.DecodeFromBytes on ONE AVP value that is decoded into again and again
+		// (first a vendor-specific AVP, then every top-level record in order) must report what a
+		// fresh decode of the same bytes reports
+		var reuse diam.AVP
+		prime := refcodec.EncodeAVP(refcodec.Node{Code: 60001, Flags: 0x80, Vendor: 4242, Payload: []byte{1, 2, 3, 4}})
+		if err := reuse.DecodeFromBytes(prime, app, c.A.D.P); err != nil {
+			return "harness: priming AVP rejected: " + err.Error()
+		}
+		for i, r := range recs {
+			one := refcodec.EncodeAVP(refcodec.Node{Code: r.Code, Flags: r.Flags, Vendor: r.Vendor, Payload: r.Payload})
+			fresh, ferr := diam.DecodeAVP(one, app, c.A.D.P)
+			rerr := reuse.DecodeFromBytes(one, app, c.A.D.P)
+			if (ferr == nil) != (rerr == nil) {
+				return fmt.Sprintf("avp[%d] decoded into a reused AVP value: error %v, decoded into a fresh one: error %v", i, rerr, ferr)
+			}
+			if ferr != nil {
+				continue
+			}
+			if reuse.Code != fresh.Code || reuse.Flags != fresh.Flags || reuse.VendorID != fresh.VendorID || reuse.Length != fresh.Length || fmt.Sprintf("%T", reuse.Data) != fmt.Sprintf("%T", fresh.Data) {
+				return fmt.Sprintf("avp[%d] decoded into a reused AVP value reports (code %d flags %#x vendor %d length %d %T), a fresh decode of the same bytes (code %d flags %#x vendor %d length %d %T)",
+					i, reuse.Code, reuse.Flags, reuse.VendorID, reuse.Length, reuse.Data, fresh.Code, fresh.Flags, fresh.VendorID, fresh.Length, fresh.Data)
+			}
+		}
+		return ""
 	})
 }
 
@@ -430,6 +456,7 @@ func runC04(ctx *ev.Ctx) {
 			ctx.Report("", generalise(what), what+" | case: "+mc.Desc(), mc)
 		}
 	})
+	ctx.Rule += " Every top-level record of every accepted body is also decoded with the exported AVP.DecodeFromBytes into ONE AVP value that held a vendor-specific AVP first and then every earlier record, and compared with a fresh decode of the same bytes."
 	ctx.Assume = []string{"reference framer (refcodec.Frame) walks by pad4(declared length) only", "a by-Length decoder accepts a sequence iff it accepts each record on its own (used to tell a legitimate value rejection from a framing error)"}
 }
 
